@@ -28,7 +28,10 @@ fn space(tier: Tier) -> &'static Space {
 /// hand-written texts covering productions the families do not print
 fn extra_texts() -> Vec<(String, String)> {
     let mut v: Vec<(String, String)> = crate::props::c15::PROGRAMS.iter().map(|(n, s)| (format!("c15:{n}"), s.to_string())).collect();
-    let more: [(&str, &str); 12] = [
+    let more: [(&str, &str); 15] = [
+        ("block_comment_before_first_token", "/* c */ fn dsp(x) {\n  x\n}\n"),
+        ("block_comment_first_in_nested_block", "fn dsp(x) {\n  let v1 = {\n    /* c */ let b1 = x\n    b1\n  }\n  v1\n}\n"),
+        ("block_comment_before_toplevel_item", "fn g(x) {\n  x\n}\n/* c */ fn dsp(x) {\n  g(x)\n}\n"),
         ("typed_params", "fn f(a:float, b) -> float {\n  a + b\n}\nfn dsp() {\n  f(1.0, 2.0)\n}\n"),
         ("typed_lambda", "fn dsp(x) {\n  let f = |a:float, b:float| -> float { a * b }\n  f(x, 2.0)\n}\n"),
         ("comments_everywhere", "// leading\nfn dsp(x) { // after brace\n  let a = 1.0 /* mid */ + x // eol\n  /* before stmt */ let b = a\n  b // last\n}\n// trailing\n"),
@@ -57,7 +60,11 @@ fn corpus_ok() -> &'static Vec<usize> {
     })
 }
 /// per-base variants: 0 = as printed, 1.. = layout/comment variants
-const NVAR: u64 = 1 + xform::LAYOUTS.len() as u64;
+/// as printed + the whole-program layout variants except `block_comment_at_line_start`: the formatter drops block comments
+/// at the start of a line in so many positions on the unchanged tree (before the first token, a top-level item, a closing
+/// brace, inside and after nested blocks - three of them kept as witness texts with their findings) that the variant
+/// cannot tell a new loss from the listed ones
+const NVAR: u64 = xform::LAYOUTS.len() as u64;
 
 fn strip_spans(s: &str) -> String {
     // simple_print appends ":start..end" to located nodes
@@ -130,7 +137,8 @@ fn layout_variant(src: &str, which: usize) -> String {
         2 => src.replace(", ", ",\n    "),
         3 => src.lines().map(|l| format!("{l} // c")).collect::<Vec<_>>().join("\n") + "\n",
         4 => src.replace(')', " /* c */ )"),
-        _ => src.replace('\n', "\r\n"),
+        5 => src.replace('\n', "\r\n"),
+        _ => xform::comment_at_line_start(src),
     }
 }
 
@@ -214,6 +222,18 @@ impl Prop for C14 {
         }
         if src.lines().any(|l| l.trim_end().ends_with("{ // c") || l.trim_end().ends_with("} // c") || l.contains("{ //") || l.trim_start().starts_with("} //")) {
             tags.push("line_comment_after_brace".into());
+        }
+        if src.trim_start().starts_with("/*") {
+            tags.push("block_comment_before_first_token".into());
+        }
+        {
+            let ls: Vec<&str> = src.lines().collect();
+            if ls.iter().any(|l| l.starts_with("    ") && l.trim_start().starts_with("/*")) {
+                tags.push("block_comment_first_in_nested_block".into());
+            }
+        }
+        if squeezed.contains("} /* c */ fn ") {
+            tags.push("block_comment_before_toplevel_item".into());
         }
         // `else { .. } /* c */ )`: a block comment between the closing brace of an else block and a closing parenthesis
         if squeezed.match_indices("} /* c */ )").any(|(i, _)| {
